@@ -114,6 +114,11 @@ func (c *Collection) Update(id string, msg proto.Message, opts ...WriteOption) (
 		&c.mu,
 		func() (item proto.Message, err error) {
 			if created != nil {
+				if _, exists := c.byId[id]; exists {
+					// someone else created the item while we were preparing ours,
+					// returning no item makes GetAndUpdate report the concurrent update
+					return nil, nil
+				}
 				return created, nil
 			}
 
